@@ -2,7 +2,11 @@
 
 Implementation: ``eups.table.Table(file, topProduct).actions(flavor, setupType)`` -> [(cmd, args, extra)] and
 ``eups.VersionParser.VersionParser(text).eval()`` for every condition on its own.
-Model: lean/EupsModel/Model/{Cond,TableParse}.lean through the driver handler "c11" (ops "table", "cond").
+Further observables: ``Table._actions`` (every chain, unselected branches too), the lines ``Table._rewrite`` returns,
+``Table.getDeclareOptions(flavor, setupType)``; ``Eups(setupType=…, exact_version=…).setupType`` and what
+``Table.actions`` / ``Table.dependencies`` make of it (Model/SetupType.lean, ops "setuptype", "deptypes").
+Model: lean/EupsModel/Model/{Cond,TableParse}.lean through the driver handler "c11" (ops "table", "cond", "declopts",
+"parse", "rewrite").
 Oracle (ii): the generator builds the table as a syntax tree (commands, if / else-if / else chains, boolean
 expressions, legacy Flavor= groups), renders it with random layout, and computes what the tree denotes for a
 flavor and a list of setup types *itself* (truth tables, first true branch, documented command aliases) — the
@@ -22,8 +26,16 @@ RULE = ("cases = (table text, flavor, setup types): tables of 1-8 items (command
         "trailing semicolons; legacy tables (Group:/Flavor=/Common:/End: and runs of Flavor= lines); a malformed stream "
         "(lines dropped, duplicated, inserted; wrong arity; operators outside the property's grammar); every condition "
         "also on its own through VersionParser; exhaustive small enumerations (all chain shapes of <= 3 branches with "
-        "empty / non-empty branches and else; all conditions of depth <= 1, thorough: <= 2, over 2 flavors x 2 types); each "
-        "table is evaluated for every flavor it mentions plus an unmentioned one, with TYPE absent / one / two types.  "
+        "empty / non-empty branches and else; all conditions of depth <= 1, thorough: <= 2, over 2 flavors x 2 types; all "
+        "argument texts of length <= 5, thorough: <= 7, over the alphabet {a, quote, backslash, comma, blank, closing parenthesis}; "
+        "all declareOptions argument texts of length <= 4, thorough: <= 5, over {k, v, =, blank, comma, quote}); each "
+        "table is evaluated for every flavor it mentions plus an unmentioned one, with TYPE absent / one / two types; "
+        "chains of 6-9 branches (3 %), declareOptions written as options (k=v, k = v, quoted) whose pairs the generator "
+        "knows; a lone quoted argument with escaped quotes / commas / runs of blanks, padded or not, escaped quotes next to "
+        "the opening / closing quote and in the first / last argument (floor of 10 cases per shape); 400 setup-type cases "
+        "(arguments also use the seven older variable names, ${UPS_PROD_DIR} ..., which denote the modern ones) "
+        "(a --type option as `setup` / `eups -T` / a caller pass it, words from the valid types and an invalid one, blank and "
+        "comma separators, --exact, a table with TYPE conditions, followExact for Table.dependencies).  "
         "A case is non-trivial when its table has a conditional chain, a legacy group or a quoted argument, or is an "
         "enumerated condition batch; distinct = distinct (text, flavor, types) digests")
 TRUSTED = ["CPython `re` on the patterns of table.py / VersionParser.py (hand-translated to list functions in the model; "
@@ -70,6 +82,26 @@ def split_words(s):
     return out
 
 
+# the older names of the eups variables, which a table may still use: written -> delivered (documented synonyms)
+SYNONYMS = {"${PROD_DIR}": "${PRODUCT_DIR}", "${UPS_PROD_DIR}": "${PRODUCT_DIR}", "${UPS_PROD_FLAVOR}": "${PRODUCT_FLAVOR}",
+            "${UPS_PROD_NAME}": "${PRODUCT_NAME}", "${UPS_PROD_VERSION}": "${PRODUCT_VERSION}", "${UPS_DB}": "${PRODUCTS}",
+            "${UPS_UPS_DIR}": "${UPS_DIR}"}
+
+
+def modern(v):
+    for old_, new_ in SYNONYMS.items():
+        v = v.replace(old_, new_)
+    return v
+
+
+def whole_list_quoted(c):
+    """The classic spelling `cmd("word word …")`: the argument text is exactly one pair of quotes with no quote
+    (escaped or not) between them.  With an escaped quote inside, or blanks between the parentheses and the quotes,
+    the quoted string is one argument like any other."""
+    a = c["args"]
+    return len(a) == 1 and a[0]["q"] and '"' not in a[0]["v"] and not c["pad"]
+
+
 def denote_cmd(c):
     """What a written command denotes: None (nothing) or {"cmd", "args", "extra"}."""
     name = c["name"]
@@ -77,10 +109,11 @@ def denote_cmd(c):
         return None                       # unknown command / sourceRequired: skipped by design
     cmd, extra = ALIASES[name]
     written = c["args"]
-    if len(written) == 1 and written[0]["q"]:
+    if whole_list_quoted(c):
         args = split_words(written[0]["v"])      # quotes around the whole list: the list of words
     else:
         args = [a["v"] for a in written]
+    args = [modern(a) for a in args]
     if cmd == "envSet":
         args = [args[0], " ".join(args[1:])]
     if cmd == "envUnset":
@@ -127,12 +160,65 @@ def denote_table(items, flavor, types):
     return out
 
 
+def selected_cmds(items, flavor, types):
+    out = []
+    for it in items:
+        if it["k"] == "cmd":
+            out.append(it["c"])
+        elif it["k"] == "chain":
+            chosen = None
+            for br in it["branches"]:
+                if denote_cond(br["cond"], flavor, types):
+                    chosen = br["cmds"]
+                    break
+            if chosen is None:
+                chosen = it["els"] if it["els"] is not None else []
+            out += chosen
+    return out
+
+
+def denote_opts(items, flavor, types):
+    """The options the declareOptions commands of the selected branches declare, as sorted [key, value] pairs (a
+    later option replaces an earlier one with the same key); None when one of them is not written as options."""
+    d = {}
+    for c in selected_cmds(items, flavor, types):
+        if c["name"] != "declareOptions":
+            continue
+        if "opts" not in c:
+            return None
+        for k, v in c["opts"]:
+            d[k] = v
+    return sorted([k, v] for k, v in d.items())
+
+
 # ---- generator -------------------------------------------------------------------------------------
 
 PLAIN = ["a", "b/c", "${PRODUCT_DIR}/bin", "x.y", "-j", "1.2", "FOO_BAR", ">=", "2.0", "/opt/p-1/lib", "lib64", "$?{X}/y",
-         "[>=", "1.0]", "a:b", "v1_2+3", "(x)"]
+         "[>=", "1.0]", "a:b", "v1_2+3", "(x)",
+         "${PROD_DIR}/lib", "${UPS_PROD_DIR}/bin", "${UPS_PROD_FLAVOR}", "${UPS_PROD_NAME}-${UPS_PROD_VERSION}", "${UPS_DB}", "${UPS_UPS_DIR}/x"]
 VARNAMES = ["PATH", "LD_LIBRARY_PATH", "FOO", "PYTHONPATH", "X_Y"]
 PRODS = ["python", "cfitsio", "afw", "doxygen", "base"]
+OPT_KEYS = ["flavor", "name", "version", "x_y"]
+OPT_VALS = ["NULL", "Linux", "foo", "1.2", "a.b"]
+
+
+def gen_escaped(rng):
+    """The value of a quoted argument that holds double quotes (written \\"), alone or with commas / runs of blanks."""
+    w = lambda: rng.choice(PLAIN)  # noqa
+    shape = rng.choice(["mid", "mid_commas", "mid_commas", "end", "start", "only", "two", "end_comma"])
+    if shape == "mid":
+        return 'say "%s" now' % w()
+    if shape == "mid_commas":
+        return 'Set %s=1, or run "make  %s, slowly" first' % (w(), w())
+    if shape == "end":
+        return 'run  "%s %s"' % (w(), w())              # an escaped quote next to the closing quote
+    if shape == "end_comma":
+        return '%s, "%s"' % (w(), w())
+    if shape == "start":
+        return '"%s", then  %s' % (w(), w())            # … next to the opening quote
+    if shape == "only":
+        return rng.choice(['"', '""', '","'])
+    return '"%s" "%s"' % (w(), w())
 
 
 def gen_arg(rng, allow_escape=True):
@@ -147,7 +233,7 @@ def gen_arg(rng, allow_escape=True):
     elif r < 0.94:
         inner = rng.choice(PLAIN) + "," + rng.choice(PLAIN)
     elif allow_escape:
-        inner = 'say "%s" now' % rng.choice(PLAIN)
+        inner = gen_escaped(rng)
     else:
         inner = rng.choice(PLAIN)
     r2 = rng.random()
@@ -164,6 +250,7 @@ def gen_cmd(rng):
                        "pathSet", "unsetupRequired", "unsetupOptional", "declareOptions", "prodDir", "setupEnv",
                        "envUnset", "unsetenv", "pathRemove", "sourceRequired", "frobnicate"])
     seps = None
+    c_opts = None
     if name in ("envPrepend", "envAppend", "pathPrepend", "pathAppend"):
         n = rng.choice([2, 2, 3])
         args = [{"v": rng.choice(VARNAMES), "q": False}, gen_arg(rng)]
@@ -191,24 +278,53 @@ def gen_cmd(rng):
             seps = [" "] * (len(args) - 1)
     elif name == "addAlias":
         args = [{"v": rng.choice(["ll", "longls", "gs"]), "q": False}] + [gen_arg(rng) for _ in range(rng.randint(1, 3))]
+    elif name == "declareOptions" and rng.random() < 0.75:
+        # options as documented: k=v, k = v, k= v, "k = v" — the generator knows the pairs (oracle (ii))
+        opts = [(rng.choice(OPT_KEYS), rng.choice(OPT_VALS)) for _ in range(rng.randint(1, 3))]
+        args, seps = [], []
+        for k, v in opts:
+            style = rng.choice(["k=v", "k=v", "k = v", "k =v", "k= v", "q", "q2"])
+            ws = {"k=v": [k + "=" + v], "k = v": [k, "=", v], "k =v": [k, "=" + v], "k= v": [k + "=", v]}.get(style)
+            if ws is None:
+                inner = k + rng.choice([" = ", "=", " =", "  =\t"]) + v
+                new = [{"v": inner, "q": True}]
+            else:
+                new = [{"v": w, "q": False} for w in ws]
+            for a in new:
+                if args:
+                    seps.append(rng.choice([", ", " ", ",", " , "]) if a is new[0] else rng.choice([" ", "  "]))
+                args.append(a)
+        if rng.random() < 0.1:                                   # a word without a value at the end: no pair
+            seps.append(", ")
+            args.append({"v": rng.choice(OPT_KEYS), "q": False})
+        if len(args) == 1 and args[0]["q"]:
+            seps = []
+        c_opts = opts
     elif name in ("print", "declareOptions", "frobnicate", "sourceRequired"):
         args = [gen_arg(rng) for _ in range(rng.randint(1, 3))]
         if name == "print" and rng.random() < 0.3:
             args[0] = {"v": rng.choice(["stderr", "stdout", "stdwarn"]), "q": False}
+        elif name == "print" and rng.random() < 0.35:
+            # the whole list is one quoted string: with escaped quotes inside (one argument), or without (a word list)
+            args = [{"v": gen_escaped(rng) if rng.random() < 0.7 else "%s, %s  %s" % tuple(rng.choice(PLAIN) for _ in range(3)), "q": True}]
+        elif rng.random() < 0.15:
+            # escaped quotes in the first / the last argument of several
+            args[rng.choice([0, -1])] = {"v": gen_escaped(rng), "q": True}
     elif name in ("prodDir", "setupEnv"):
         args = []
     else:   # envUnset family
         args = [{"v": rng.choice(["PRODUCT_DIR", PDIR, "PATH", "BAR"]), "q": False}]
-    # a lone quoted argument means "the whole list is quoted": an escaped quote inside is outside the grammar
-    if len(args) == 1 and args[0]["q"] and '"' in args[0]["v"]:
-        args[0]["v"] = args[0]["v"].replace('"', "")
     if seps is None:
         seps = [rng.choice([", ", ",", " , ", ", ", " ", ",  "]) for _ in range(max(0, len(args) - 1))]
     case = rng.random()
     spelled = name if case < 0.6 else name.lower() if case < 0.8 else name.upper() if case < 0.9 else name[0].upper() + name[1:]
-    pad = len(args) > 0 and not (len(args) == 1 and args[0]["q"]) and rng.random() < 0.25
-    return {"name": name, "spelled": spelled, "args": args, "seps": seps, "pad": pad,
-            "gap": rng.choice(["", "", "", " "]), "semi": rng.choice(["", "", ";", " ;", "; "])}
+    # (blanks between the parentheses and a lone quoted string make it an ordinary argument: `^"…"$` is anchored)
+    pad = len(args) > 0 and rng.random() < (0.12 if len(args) == 1 and args[0]["q"] else 0.25)
+    c = {"name": name, "spelled": spelled, "args": args, "seps": seps, "pad": pad,
+         "gap": rng.choice(["", "", "", " "]), "semi": rng.choice(["", "", ";", " ;", "; "])}
+    if c_opts is not None:
+        c["opts"] = [list(o) for o in c_opts]
+    return c
 
 
 def gen_cond(rng, depth, flavors, types):
@@ -230,7 +346,10 @@ def gen_table(rng):
             items.append({"k": "cmd", "c": gen_cmd(rng)})
         else:
             branches = []
-            for _b in range(rng.choice([1, 1, 2, 2, 3, 4, 5])):
+            nb = rng.choice([1, 1, 2, 2, 3, 4, 5])
+            if rng.random() < 0.03:
+                nb = rng.choice([6, 7, 8, 9])            # getDeclareOptions treats chains of more than 7 branches apart
+            for _b in range(nb):
                 d = rng.choice([0, 0, 1, 1, 2, 3])
                 ncmd = rng.choice([0, 1, 1, 2, 3]) if rng.random() < 0.5 else rng.randint(1, 2)
                 branches.append({"cond": gen_cond(rng, d, flavors, types), "cmds": [gen_cmd(rng) for _ in range(ncmd)]})
@@ -350,14 +469,40 @@ def table_features(items):
                 f.add("empty_branch")
             for b in it["branches"]:
                 f.add("cond_depth=%d" % cond_depth(b["cond"]))
+            if len(it["branches"]) >= 8:
+                f.add("branches>=8")
         cmds = [it["c"]] if it["k"] == "cmd" else sum([b["cmds"] for b in it["branches"]], []) + (it["els"] or [])
         for c in cmds:
+            if "opts" in c:
+                f.add("declare_options")
+            for a in c["args"]:
+                for syn in SYNONYMS:
+                    if syn in a["v"]:
+                        f.add("synonym=" + syn)
             if any(a["q"] for a in c["args"]):
                 f.add("quoted_arg")
             if len(c["args"]) > 1 and c["args"][0]["q"] and c["args"][-1]["q"]:
                 f.add("first_and_last_quoted")
-            if len(c["args"]) == 1 and c["args"][0]["q"]:
+            if whole_list_quoted(c):
                 f.add("whole_list_quoted")
+                if "," in c["args"][0]["v"] or "  " in c["args"][0]["v"]:
+                    f.add("whole_list_quoted_commas_or_blank_runs")
+            if len(c["args"]) == 1 and c["args"][0]["q"]:
+                v = c["args"][0]["v"]
+                if c["pad"]:
+                    f.add("lone_quoted_padded")
+                if '"' in v:
+                    f.add("lone_quoted_with_escape")
+                    if "," in v or "  " in v:
+                        f.add("lone_quoted_with_escape_and_commas_or_blank_runs")
+            if len(c["args"]) > 1 and c["args"][0]["q"] and '"' in c["args"][0]["v"]:
+                f.add("escape_in_first_arg")
+            if len(c["args"]) > 1 and c["args"][-1]["q"] and '"' in c["args"][-1]["v"]:
+                f.add("escape_in_last_arg")
+            if any(a["q"] and a["v"].endswith('"') for a in c["args"]):
+                f.add("escape_next_to_closing_quote")
+            if any(a["q"] and a["v"].startswith('"') for a in c["args"]):
+                f.add("escape_next_to_opening_quote")
             if any(a["q"] and a["v"][-1:] in (",", " ") and len(a["v"]) > 1 for a in c["args"]):
                 f.add("quoted_ends_comma_or_blank")
             if any(a["q"] and a["v"].strip(" \t") == "" for a in c["args"]):
@@ -442,7 +587,12 @@ JUNK = ["}", "} else {", "if (FLAVOR == Linux) {", "} else if (TYPE == build) {"
         "envUnset(A, B)", "setupRequired(", "if (FLAVOR == ) {", "if (FLAVOR == Linux && ) {", "if ((FLAVOR == Linux) {",
         "junk line", "print", "prodDir", "envSet", "Action = build", "Group:", "End:", "Common:", "Flavor = Linux",
         "if (FLAVOR TYPE) {", "if (TYPE == build == exact) {", "} ELSE {", "}else{ ", "if (FLAVOR =~ Lin) {",
-        "if (FLAVOR < Linux64) {", "if (!(FLAVOR == Linux)) {", "if (not FLAVOR == Linux) {", "if (FLAVOR == Linux or TYPE == build) {"]
+        "if (FLAVOR < Linux64) {", "if (!(FLAVOR == Linux)) {", "if (not FLAVOR == Linux) {", "if (FLAVOR == Linux or TYPE == build) {",
+        # the rest of VersionParser's grammar and of _rewrite's archaic forms (correspondence only)
+        "if (FLAVOR !~ Lin) {", "if (FLAVOR <= Linux) {", "if (FLAVOR > Linux) {", "if (FLAVOR >= Linux64) {", "if (1 < 2) {",
+        "if (2 <= 1) {", "if (1 == 1) {", "if (True) {", "if (False || FLAVOR == Linux) {", "if (FLAVOR == Linux and TYPE == build) {",
+        "if (FLAVOR =~ L.n.x) {", "if (10 > 9) {", "File = Foo", "File = Table", "Product = bar", "Qualifiers = \"x y\"",
+        "Action = Setup", "Common:", "Flavor = ANY"]
 
 
 def malform(rng, text):
@@ -485,10 +635,17 @@ def gen_case(rng):
         for c in [c for p_ in parts for c in p_["conds"]][:6]:
             conds.append({"text": c["text"], "expect": [denote_cond(c["ast"], v["flavor"], v["types"]) for v in envs]})
     expect = [denote_table(items, v["flavor"], v["types"]) for v in envs]
+    expect_opts = [denote_opts(items, v["flavor"], v["types"]) for v in envs]
     if r >= 0.88:
         text = malform(rng, text)
-        kind, expect, features, parts = "malformed", None, features | {"malformed"}, None
+        kind, expect, expect_opts, features, parts = "malformed", None, None, features | {"malformed"}, None
     case = {"kind": kind, "text": text, "envs": envs, "expect": expect, "conds": conds, "features": sorted(features)}
+    if expect_opts is not None:
+        case["expect_opts"] = expect_opts
+    if rng.random() < 0.3:
+        # hooks.config.Eups.defaultProduct and the addDefaultProduct argument of Table(...)
+        case["dflt"] = {"name": rng.choice(["toolchain", "toolchain", "base", ""]), "version": rng.choice([None, None, "1.0", ""]),
+                        "tag": rng.choice([None, None, "stable"]), "add": rng.choice([None, None, True, False])}
     if parts:
         case["parts"] = parts
     return case
@@ -501,8 +658,9 @@ def sub_case(case, parts, envs):
              for p_ in parts for c in p_["conds"]][:6]
     return {"kind": case["kind"], "text": join_parts([p_["lines"] for p_ in parts]), "envs": envs,
             "expect": [denote_table(items, v["flavor"], v["types"]) for v in envs], "conds": conds,
+            "expect_opts": [denote_opts(items, v["flavor"], v["types"]) for v in envs],
             "features": sorted(table_features(items) | (set(case["features"]) & {"trailing_comment", "keyword_case"})),
-            "parts": parts}
+            "parts": parts, **({"dflt": case["dflt"]} if case.get("dflt") else {})}
 
 
 def shrink(case, clause):
@@ -542,8 +700,26 @@ def canon_action(a):
     return {"cmd": a.cmd, "args": list(a.args), "extra": {k: a.extra[k] for k in sorted(a.extra)}}
 
 
+class PdbTrap(Exception):
+    """raised instead of stopping in the debugger (`pdb.set_trace()` in library code)"""
+
+
+def _pdb_trap(*_a, **_k):
+    raise PdbTrap()
+
+
+def canon_chains(table):
+    """`Table._actions` as [[{"cond": text} | {"blk": [actions]}, ...], ...]"""
+    out = []
+    for lbb in table._actions:
+        out.append([{"cond": x} if isinstance(x, str) else {"blk": [canon_action(a) for a in x]} for x in lbb])
+    return out
+
+
 def run_impl(case):
-    """Returns {"table": [per env: list of actions | {"err": type}], "conds": [[per env: bool | {"err"}]]}."""
+    """Returns {"table": [per env: list of actions | {"err": type}], "conds": [[per env: bool | {"err"}]],
+    "opts": [per env: sorted [k, v] pairs of getDeclareOptions | {"err"}], "chains": Table._actions | {"err"},
+    "rewrite": the lines Table._rewrite returns | {"err"}}."""
     global _scratch
     eups = common.import_eups()
     import eups.hooks as hooks
@@ -560,6 +736,8 @@ def run_impl(case):
     with open(path, "w") as f:
         f.write(case["text"])
     outs = []
+    import pdb
+    pdb.set_trace = _pdb_trap
     with contextlib.redirect_stderr(io.StringIO()), contextlib.redirect_stdout(io.StringIO()):
         try:
             prod = Product(PRODUCT, "1.0", flavor="Linux", dir="/nowhere/foo")
@@ -567,6 +745,24 @@ def run_impl(case):
             err = None
         except Exception as ex:  # noqa
             err = {"err": type(ex).__name__}
+        chains = err if err else canon_chains(table)
+        try:
+            with open(path) as f:
+                rewritten = [l for _n, l in Table(None)._rewrite(f.readlines())]
+        except Exception as ex:  # noqa
+            rewritten = {"err": type(ex).__name__}
+        opts = []
+        for v in case["envs"]:
+            if err:
+                opts.append(err)
+                continue
+            try:
+                d = table.getDeclareOptions(v["flavor"], list(v["types"]))
+                opts.append(sorted([k, x] for k, x in d.items()))
+            except RecursionError:
+                opts.append({"err": "RecursionError"})
+            except Exception as ex:  # noqa
+                opts.append({"err": type(ex).__name__})
         for v in case["envs"]:
             if err:
                 outs.append(err)
@@ -590,7 +786,23 @@ def run_impl(case):
                 except Exception as ex:  # noqa
                     row.append({"err": type(ex).__name__})
             couts.append(row)
-    return {"table": outs, "conds": couts}
+        # the default product: what _read appends for hooks.config.Eups.defaultProduct (first environment only)
+        dflt = None
+        if case.get("dflt") and case["envs"]:
+            d, v = case["dflt"], case["envs"][0]
+            saved = dict(hooks.config.Eups.defaultProduct)
+            try:
+                hooks.config.Eups.defaultProduct.update({"name": d["name"], "version": d["version"], "tag": d["tag"]})
+                t2 = Table(path, prod, **({} if d["add"] is None else {"addDefaultProduct": d["add"]}))
+                dflt = [canon_action(a) for a in t2.actions(v["flavor"], setupType=list(v["types"]))]
+            except RecursionError:
+                dflt = {"err": "RecursionError"}
+            except Exception as ex:  # noqa
+                dflt = {"err": type(ex).__name__}
+            finally:
+                hooks.config.Eups.defaultProduct.clear()
+                hooks.config.Eups.defaultProduct.update(saved)
+    return {"table": outs, "conds": couts, "opts": opts, "chains": chains, "rewrite": rewritten, "dflt": dflt}
 
 
 def run_impl_chunk(cases):
@@ -606,6 +818,10 @@ def run_impl_chunk(cases):
 # runs the model of the tree *without* the other repairs, to validate the `…Pinned` definitions against an
 # unrepaired checkout
 _VARIANT = os.environ.get("C11_VARIANT")
+
+
+# C11_TRAP=1: the model of getDeclareOptions as pinned (debugger trap on chains of more than seven branches, D111)
+_TRAP = bool(os.environ.get("C11_TRAP"))
 
 
 def _variant():
@@ -627,6 +843,25 @@ def model_requests(case):
         for v in case["envs"]:
             reqs.append({"m": "c11", "op": "cond" if not var or var["d3"] else "cond_pinned", "text": c["text"],
                          "flavor": v["flavor"], "types": v["types"]})
+    for v in case["envs"]:
+        r = {"m": "c11", "op": "declopts", "text": case["text"], "flavor": v["flavor"], "types": v["types"], "pdir": PDIR,
+             "trap": _TRAP}
+        if var:
+            r["variant"] = var
+        reqs.append(r)
+    for op in ("parse", "rewrite"):
+        r = {"m": "c11", "op": op, "text": case["text"], "pdir": PDIR}
+        if var:
+            r["variant"] = var
+        reqs.append(r)
+    if case.get("dflt") and case["envs"]:
+        d, v = case["dflt"], case["envs"][0]
+        r = {"m": "c11", "op": "table", "text": case["text"], "flavor": v["flavor"], "types": v["types"], "pdir": PDIR}
+        if d["add"] is not False and d["name"]:
+            r["dflt"] = {"name": d["name"], "version": d["version"] or None, "tag": d["tag"] or None}
+        if var:
+            r["variant"] = var
+        reqs.append(r)
     return reqs
 
 
@@ -645,7 +880,14 @@ def model_out(case, answers):
     conds = []
     for i, _c in enumerate(case["conds"]):
         conds.append([conv(a, "value") for a in answers[n + i * n: n + (i + 1) * n]])
-    return {"table": table, "conds": conds}
+    k = n + len(case["conds"]) * n
+    opts = []
+    for a in answers[k:k + n]:
+        o = conv(a, "opts")
+        opts.append(sorted(o) if isinstance(o, list) else o)
+    return {"table": table, "conds": conds, "opts": opts, "chains": conv(answers[k + n], "chains"),
+            "rewrite": conv(answers[k + n + 1], "lines"),
+            "dflt": conv(answers[k + n + 2], "actions") if case.get("dflt") and case["envs"] else None}
 
 
 def unmodelled(x):
@@ -675,6 +917,20 @@ def oracle(case, impl):
             if got != want:
                 cond_bad.add(i)
                 yield ("cond", None, i, "condition %r for %s: %r, its truth table says %r" % (c["text"], case["envs"][i], got, want))
+    for i, want in enumerate(case.get("expect_opts") or []):
+        got = impl["opts"][i]
+        if want is not None and got != want:
+            yield ("declare_options", None, i, "for %s the declareOptions commands of the table declare %s, getDeclareOptions returns %s"
+                   % (case["envs"][i], json.dumps(want), json.dumps(got)))
+    if case.get("dflt") and case["expect"] is not None and case["envs"]:
+        d = case["dflt"]
+        want = list(case["expect"][0])
+        if d["add"] is not False and d["name"]:
+            want.append({"cmd": "setupRequired", "args": [d["name"]] + ([d["version"]] if d["version"] else [])
+                         + (["--tag", d["tag"]] if d["tag"] else []), "extra": {"optional": True, "silent": True}})
+        if impl["dflt"] != want:
+            yield ("default_product", None, 0, "with the default product %s the table denotes %s, eups derives %s"
+                   % (json.dumps(d), json.dumps(want), json.dumps(impl["dflt"])))
     if case["expect"] is None:
         return
     for i, (got, want) in enumerate(zip(impl["table"], case["expect"])):
@@ -701,14 +957,15 @@ def corpus_cases():
 
 
 def public(case):
-    return {k: case[k] for k in ("kind", "text", "envs", "expect", "conds", "features", "parts", "shrunk_from_items") if k in case}
+    return {k: case[k] for k in ("kind", "text", "envs", "expect", "expect_opts", "dflt", "conds", "features", "parts", "shrunk_from_items")
+            if k in case}
 
 
 MAX_SHRINKS = 6
 
 
 def evaluate(ctx, cases):
-    nw = 6
+    nw = 4
     impl = parallel_map(run_impl_chunk, [cases[i::nw] for i in range(nw)], workers=nw)
     impls = [None] * len(cases)
     for k, ch in enumerate(impl):
@@ -724,7 +981,7 @@ def evaluate(ctx, cases):
         mo = model_out(c, answers[s:s + n])
         inp = public(c)
         feats = set(c["features"])
-        nontrivial = bool(feats & {"chain", "legacy", "quoted_arg", "enumerated_conds"})
+        nontrivial = bool(feats & {"chain", "legacy", "quoted_arg", "enumerated_conds", "enumerated_args", "enumerated_opts"})
         ctx.hist("kind=" + c["kind"])
         for f in c["features"]:
             ctx.hist("feature=" + f)
@@ -742,11 +999,29 @@ def evaluate(ctx, cases):
             if dec:
                 ctx.hist("model_declined")
         mo_cmp = {"table": [b if not unmodelled(b) else a for a, b in zip(io_["table"], mo["table"])],
-                  "conds": [[b if not unmodelled(b) else a for a, b in zip(ra, rb)] for ra, rb in zip(io_["conds"], mo["conds"])]}
+                  "conds": [[b if not unmodelled(b) else a for a, b in zip(ra, rb)] for ra, rb in zip(io_["conds"], mo["conds"])],
+                  "opts": [b if not unmodelled(b) else a for a, b in zip(io_["opts"], mo["opts"])],
+                  "chains": mo["chains"] if not unmodelled(mo["chains"]) else io_["chains"],
+                  "rewrite": mo["rewrite"],
+                  "dflt": mo["dflt"] if not unmodelled(mo["dflt"]) else io_["dflt"]}
+        if c.get("dflt"):
+            d = c["dflt"]
+            ctx.hist("default_product=%s%s%s, add=%s" % ("name" if d["name"] else "none", "+version" if d["version"] else "",
+                                                         "+tag" if d["tag"] else "", d["add"]))
+        for o in io_["opts"]:
+            ctx.hist("declare_options=" + (o["err"] if isinstance(o, dict) else "none" if not o else "some"))
         if mo_cmp["table"] != io_["table"]:
             ctx.disagree("actions", inp, io_, mo)
         elif mo_cmp["conds"] != io_["conds"]:
             ctx.disagree("condition_value", inp, io_, mo)
+        elif mo_cmp["rewrite"] != io_["rewrite"]:
+            ctx.disagree("rewritten_lines", inp, io_, mo)
+        elif mo_cmp["chains"] != io_["chains"]:
+            ctx.disagree("parsed_chains", inp, io_, mo)
+        elif mo_cmp["opts"] != io_["opts"]:
+            ctx.disagree("declare_options", inp, io_, mo)
+        elif mo_cmp["dflt"] != io_["dflt"]:
+            ctx.disagree("actions_with_default_product", inp, io_, mo)
         fails = list(oracle(c, io_))
         if fails and c.get("parts") and ctx.histogram.get("shrunk", 0) < MAX_SHRINKS:
             # report a reduced input: fewest items / one environment that still fail the same clause
@@ -817,7 +1092,7 @@ def enum_chain_cases():
     return out
 
 
-def enum_cond_cases(max_depth):
+def enum_cond_cases(max_depth, from_level=0):
     """Exhaustive enumeration of conditions up to a depth over 2 flavors and 2 types (atoms: FLAVOR/TYPE x ==/!= x
     2 words), minimal parentheses, evaluated for 3 flavors x {no type, one, two}."""
     atoms = [["atom", v, n, w] for v, ws in (("FLAVOR", ["Linux", "Darwin"]), ("TYPE", ["build", "exact"])) for n in (False, True) for w in ws]
@@ -835,7 +1110,7 @@ def enum_cond_cases(max_depth):
         return "(" + s_ + ")" if own < prec else s_
     out = []
     chunk = []
-    for e in [e for lv in levels for e in lv]:
+    for e in [e for lv in levels[from_level:] for e in lv]:
         chunk.append({"text": txt(e), "expect": [denote_cond(e, v["flavor"], v["types"]) for v in envs]})
         if len(chunk) == 40:
             out.append({"kind": "conds", "text": "", "envs": envs, "expect": None, "conds": chunk, "features": ["enumerated_conds"]})
@@ -845,46 +1120,397 @@ def enum_cond_cases(max_depth):
     return out
 
 
+ARG_ALPHABET = ["a", '"', "\\", ",", " ", ")"]
+
+
+OPT_ALPHABET = ["k", "v", "=", " ", ",", '"']
+
+
+def enum_opt_cases(max_len, min_len=1):
+    """Exhaustive small enumeration of option texts: every string over {k v = blank , quote} up to a length as the
+    argument text of one `declareOptions(...)` line, one table each (correspondence of getDeclareOptions: tokeniser,
+    split at `=`, pairing, dictionary; no denotation is claimed)."""
+    import itertools
+    env = [{"flavor": "Linux", "types": []}]
+    out = []
+    for n in range(min_len, max_len + 1):
+        for t in itertools.product(OPT_ALPHABET, repeat=n):
+            out.append({"kind": "opts_enum", "text": "declareOptions(" + "".join(t) + ")\n", "envs": env, "expect": None, "conds": [],
+                        "features": ["enumerated_opts"]})
+    return out
+
+
+def enum_arg_cases(max_len, per_table=100, min_len=0):
+    """Exhaustive small enumeration of argument texts: every string over {a " \\ , blank )} up to a length, each as
+    `print(<string>)` on a line of its own (correspondence of the command pattern and of every step of the argument
+    tokeniser, whatever the order of quotes, escapes and separators; no denotation is claimed for these texts)."""
+    import itertools
+    texts = []
+    for n in range(min_len, max_len + 1):
+        for t in itertools.product(ARG_ALPHABET, repeat=n):
+            texts.append("print(" + "".join(t) + ")")
+    out = []
+    env = [{"flavor": "Linux", "types": []}]
+    for i in range(0, len(texts), per_table):
+        out.append({"kind": "args_enum", "text": "\n".join(texts[i:i + per_table]) + "\n", "envs": env, "expect": None,
+                    "conds": [], "features": ["enumerated_args"]})
+    return out
+
+
+# ---- the setup type: from the command line to Table.actions ------------------------------------------------
+
+VALID_DEFAULT = ["exact", "build"]          # hooks.config.Eups.setupTypes
+
+
+def gen_setuptype_case(rng):
+    """A `--type` option (as `setup` passes it: the string; as `eups <cmd> -T` passes it: str.split(); or a list / None
+    given to Eups directly), an exact_version flag, a table with conditions over TYPE, a flavor.  `expect_*` is what
+    the option means (None: no claim — separators at the ends, commas in `eups -T`)."""
+    via = rng.choice(["setup", "setup", "cmd", "init_list", "init_none"])
+    valid = None if rng.random() < 0.7 else "build exact science"
+    valid_list = VALID_DEFAULT if valid is None else valid.split()
+    pool = valid_list + (["bogus"] if rng.random() < 0.15 else [])
+    words = rng.sample(pool, rng.randint(0, min(3, len(pool))))
+    exact = rng.choice([None, False, True])
+    claim = True
+    if via in ("setup", "cmd"):
+        seps = [rng.choice([" ", ",", ", ", "  ", " ,", "\t"] if via == "setup" else [" ", "  ", "\t", " ", ","]) for _ in words[1:]]
+        if via == "cmd" and any("," in x for x in seps):
+            claim = False
+        arg = "".join(w + x for w, x in zip(words, seps + [""]))
+        r = rng.random()
+        if r < 0.08:
+            arg, claim = rng.choice([" ", ","]) + arg, claim and via == "cmd" and not arg.startswith(",")
+        elif r < 0.16:
+            arg, claim = arg + rng.choice([" ", ","]), False
+        if via == "cmd" and ("," in arg):
+            claim = False
+    elif via == "init_list":
+        arg = list(words)
+    else:
+        arg, words = None, []
+    items = gen_table(rng)
+    features = set()
+    text = join_parts(render_table(rng, items, features))
+    fl, ty = mentioned(items)
+    flavor = rng.choice(fl + [rng.choice(OTHER_FLAVORS)])
+    follow = rng.choice([None, True, False])
+    case = {"kind": "setuptype", "via": via, "arg": arg, "exact": exact, "valid": valid, "text": text, "flavor": flavor,
+            "follow": follow, "expect_types": None, "expect_actions": None, "expect_deptypes": None}
+    if claim:
+        if any(w not in valid_list for w in words):
+            case["expect_types"] = "EupsException"
+        else:
+            types = list(words) + (["exact"] if exact is True and "exact" not in words else [])
+            case["expect_types"] = {"types": types, "exact": "exact" in types}
+            case["expect_actions"] = denote_table(items, flavor, types)
+            fe = follow if follow is not None else ("exact" in types)
+            case["expect_deptypes"] = types if fe else [t for t in types if t != "exact"]
+    return case
+
+
+_st_root = None
+
+
+def run_impl_setuptype(case):
+    global _st_root, _scratch
+    common.import_eups()
+    import eups.hooks as hooks
+    from eups.table import Table
+    from eups.Product import Product
+    import eups.utils as utils
+    # (Eups(readCache=False), as `setup` constructs it, does not survive defaultProduct["name"] = None)
+    hooks.config.Eups.defaultProduct.update({"name": "implicitProducts", "version": None, "tag": None})
+    sink = io.StringIO()
+    utils.stderr = utils.stdwarn = utils.stdinfo = utils.stdok = sink
+    if _st_root is None:
+        _st_root = common.scratch("c11st")
+        common.mkstacks(_st_root, default_product=True)
+    out = {"types": None, "actions": None, "deptypes": None, "cli": None}
+    with contextlib.redirect_stderr(io.StringIO()), contextlib.redirect_stdout(io.StringIO()):
+        arg = case["arg"]
+        if case["via"] == "cmd":
+            arg = arg.split()                                    # cmd.py: setupType = self.opts.setupType.split()
+        kw = {}
+        if case["valid"] is not None:
+            kw["validSetupTypes"] = case["valid"]
+        if case["via"] in ("cmd", "setup") and case["valid"] is None:
+            out["cli"] = run_cli(case)                           # the real command classes, option parser included
+        try:
+            E = common.new_eups(setupType=list(arg) if isinstance(arg, list) else arg, exact_version=case["exact"], **kw)
+        except Exception as ex:  # noqa
+            out["types"] = type(ex).__name__
+            return out
+        out["types"] = {"types": list(E.setupType), "exact": bool(E.exact_version)}
+        path = os.path.join(_st_root, "t.table")
+        with open(path, "w") as f:
+            f.write(case["text"])
+        try:
+            table = Table(path, Product(PRODUCT, "1.0", flavor="Linux", dir="/nowhere/foo"), addDefaultProduct=False)
+            out["actions"] = [canon_action(a) for a in table.actions(case["flavor"], setupType=E.setupType)]
+            seen = []
+
+            def spy(flavor, setupType=[], verbose=0):
+                seen.append(list(setupType))
+                return []
+            table.actions = spy
+            table.dependencies(E, followExact=case["follow"])
+            out["deptypes"] = seen[0] if len(seen) == 1 else {"err": "actions called %d times" % len(seen)}
+        except Exception as ex:  # noqa
+            out["actions"] = {"err": type(ex).__name__}
+    return out
+
+
+def run_cli(case):
+    """`eups list [-e] -T <arg>` through eups.cmd.EupsCmd, `setup [-e] --type <arg> <no such product>` through
+    eups.setupcmd.EupsSetup: the setupType / exact_version of the Eups instance the command constructs."""
+    import eups
+    import eups.cmd
+    import eups.setupcmd
+    orig = eups.Eups
+    seen = []
+
+    class Spy(orig):
+        def __init__(self, *a, **k):
+            try:
+                super().__init__(*a, **k)
+            except Exception as ex:  # noqa
+                seen.append(type(ex).__name__)
+                raise
+            seen.append({"types": list(self.setupType), "exact": bool(self.exact_version)})
+    eups.Eups = Spy
+    eups.cmd._errstrm = io.StringIO()                            # module-level stream the commands write diagnostics to
+    try:
+        flag = ["-e"] if case["exact"] is True else []
+        try:
+            if case["via"] == "cmd":
+                eups.cmd.EupsCmd(args=["list"] + flag + ["-T", case["arg"]], toolname="eups").run()
+            else:
+                eups.setupcmd.EupsSetup(args=flag + ["--type", case["arg"], "nosuchproduct"], toolname="eups_setup").run()
+        except SystemExit:
+            pass
+        except Exception as ex:  # noqa
+            if not seen:
+                seen.append({"err": type(ex).__name__})
+    finally:
+        eups.Eups = orig
+    return seen[0] if seen else {"err": "no Eups constructed"}
+
+
+def run_impl_setuptype_chunk(cases):
+    global _st_root
+    res = [run_impl_setuptype(c) for c in cases]
+    if _st_root is not None:
+        common.rmtree(_st_root)
+        _st_root = None
+    return res
+
+
+def evaluate_setuptype(ctx, cases):
+    if not cases:
+        return
+    nw = 4
+    impl = parallel_map(run_impl_setuptype_chunk, [cases[i::nw] for i in range(nw)], workers=nw)
+    impls = [None] * len(cases)
+    for k, ch in enumerate(impl):
+        for j, v in enumerate(ch):
+            impls[k + j * nw] = v
+    valid = lambda c: VALID_DEFAULT if c["valid"] is None else c["valid"].split()  # noqa
+    a1 = ctx.lean.ask_many([{"m": "c11", "op": "setuptype", "arg": c["arg"], "exact": c["exact"] is True, "valid": valid(c),
+                             "via": "cmd" if c["via"] == "cmd" else "init"} for c in cases])
+    mts = [({"types": a["types"], "exact": a["exact"]} if a.get("out") == "ok" else a.get("err", a)) for a in a1]
+    reqs = []
+    for c, mt in zip(cases, mts):
+        if isinstance(mt, dict):
+            fe = c["follow"] if c["follow"] is not None else mt["exact"]
+            reqs.append({"m": "c11", "op": "table", "text": c["text"], "flavor": c["flavor"], "types": mt["types"], "pdir": PDIR})
+            reqs.append({"m": "c11", "op": "deptypes", "types": mt["types"], "followExact": bool(fe)})
+    a2 = iter(ctx.lean.ask_many(reqs))
+    for c, io_, mt in zip(cases, impls, mts):
+        mo = {"types": mt, "actions": None, "deptypes": None}
+        if isinstance(mt, dict):
+            a = next(a2)
+            mo["actions"] = a["actions"] if a.get("out") == "ok" else {"err": a.get("err", "fuel")}
+            mo["deptypes"] = next(a2)["types"]
+        inp = {k: c[k] for k in ("kind", "via", "arg", "exact", "valid", "text", "flavor", "follow", "expect_types", "expect_actions",
+                                 "expect_deptypes")}
+        ctx.hist("kind=setuptype")
+        ctx.hist("setuptype_via=" + c["via"])
+        ctx.hist("setuptype=" + (io_["types"] if isinstance(io_["types"], str) else "%d types%s" % (len(io_["types"]["types"]), ", exact" if io_["types"]["exact"] else "")))
+        dec = unmodelled(mo["actions"])
+        ctx.case(key=[c["via"], c["arg"], c["exact"], c["valid"], c["text"], c["flavor"], c["follow"]], nontrivial=True, validated=not dec)
+        if dec:
+            ctx.hist("model_declined")
+            mo["actions"] = io_["actions"]
+        if io_.get("cli") is not None:
+            ctx.hist("setuptype_cli=" + c["via"])
+            mo["cli"] = mo["types"]
+        if mo["types"] != io_["types"]:
+            ctx.disagree("setup_type", inp, io_, mo)
+        elif io_.get("cli") is not None and mo["types"] != io_["cli"]:
+            ctx.disagree("setup_type_cli", inp, io_, mo)
+        elif mo["actions"] != io_["actions"]:
+            ctx.disagree("actions_via_setup_type", inp, io_, mo)
+        elif mo["deptypes"] != io_["deptypes"] and not isinstance(io_["actions"], dict):
+            ctx.disagree("dependencies_types", inp, io_, mo)
+        if c["expect_types"] is not None:
+            ctx.hist("setuptype_claimed")
+            if io_["types"] != c["expect_types"]:
+                ctx.fail("setup_type", inp, io_, mo, note="the option names %s, Eups holds %s" % (json.dumps(c["expect_types"]), json.dumps(io_["types"])))
+            elif io_.get("cli") is not None and io_["cli"] != c["expect_types"]:
+                ctx.fail("setup_type_cli", inp, io_, mo, note="the option names %s, the Eups instance of the command holds %s"
+                         % (json.dumps(c["expect_types"]), json.dumps(io_["cli"])))
+            elif c["expect_actions"] is not None and io_["actions"] != c["expect_actions"]:
+                ctx.fail("blocks_via_setup_type", inp, io_, mo, note="for flavor %s and the types of the option the table denotes %s, eups derives %s"
+                         % (c["flavor"], json.dumps(c["expect_actions"]), json.dumps(io_["actions"])))
+            elif c["expect_deptypes"] is not None and io_["deptypes"] != c["expect_deptypes"] and not isinstance(io_["actions"], dict):
+                ctx.fail("dependencies_types", inp, io_, mo, note="Table.dependencies must read the table for the types %s, it asked for %s"
+                         % (json.dumps(c["expect_deptypes"]), json.dumps(io_["deptypes"])))
+
+
+FLOORS_PRESENT = tuple("feature=synonym=" + k for k in SYNONYMS) + ("default_product=name, add=None", "default_product=name+version+tag, add=None", "default_product=name, add=False",
+                  "default_product=none, add=None", "feature=else_if", "feature=else", "feature=empty_branch", "feature=quoted_arg", "feature=legacy",
+                  "feature=cond_depth=2", "types=0", "types=2", "feature=first_and_last_quoted",
+                  "feature=declare_options", "declare_options=some", "feature=branches>=8")
+# argument shapes where the order of the tokeniser's steps is observable: a floor for each
+FLOORS_10 = ("feature=lone_quoted_with_escape", "feature=lone_quoted_with_escape_and_commas_or_blank_runs",
+             "feature=whole_list_quoted_commas_or_blank_runs", "feature=lone_quoted_padded", "feature=escape_in_first_arg",
+             "feature=escape_in_last_arg", "feature=escape_next_to_closing_quote", "feature=escape_next_to_opening_quote")
+
+
+def check_distribution(ctx, generated):
+    h = ctx.histogram
+    if not ctx.evaluations:
+        return
+    if ctx.distinct_nontrivial < ctx.evaluations * 0.3:
+        raise common.InfraError("degenerate distribution: %d non-trivial of %d" % (ctx.distinct_nontrivial, ctx.evaluations))
+    if h.get("model_declined", 0) > ctx.evaluations * 0.03:
+        raise common.InfraError("the model declined %d of %d cases" % (h.get("model_declined", 0), ctx.evaluations))
+    if generated >= 1000:
+        for need in FLOORS_PRESENT:
+            if not h.get(need):
+                raise common.InfraError("degenerate distribution: no case with " + need)
+        for need in FLOORS_10:
+            if h.get(need, 0) < 10:
+                raise common.InfraError("degenerate distribution: %d cases with %s (floor 10 per 1000 tables)" % (h.get(need, 0), need))
+
+
 def run(ctx):
+    """The ordinary quick portion — corpus, the small exhaustive enumerations, 3000 generated tables with the floors
+    of their distribution — always runs first and completely, whatever the budget (thorough tier, or quick tier
+    escalated because a mirrored function changed).  Only then the enlarged budget is spent, round-robin over the
+    case classes (conditions of depth 2, argument texts of length 6-7, further generated tables), so that no class
+    is starved when the time limit cuts the run short."""
     cases = corpus_cases()
     ctx.hist("corpus", len(cases))
-    evaluate(ctx, cases)
-    # exhaustive small enumerations: block structures (both tiers), conditions (depth 1 quick, depth 2 thorough)
+    evaluate(ctx, [c for c in cases if c.get("kind") != "setuptype"])
+    evaluate_setuptype(ctx, [c for c in cases if c.get("kind") == "setuptype"])
     en = enum_chain_cases()
     ctx.hist("enumerated_chains", len(en))
     evaluate(ctx, en)
-    ec = enum_cond_cases(ctx.n(1, 2))
+    ec = enum_cond_cases(1)
     ctx.hist("enumerated_cond_batches", len(ec))
-    for i in range(0, len(ec), 200):
+    evaluate(ctx, ec)
+    ea = enum_arg_cases(5)
+    ctx.hist("enumerated_arg_tables", len(ea))
+    eo = enum_opt_cases(4)
+    ctx.hist("enumerated_option_texts", len(eo))
+    half = (len(ea) + 1) // 2
+    generated = 0
+    for part in (None, ea[:half] + eo[::2], None, ea[half:] + eo[1::2]):   # generated tables and enumerated texts take turns
         if ctx.out_of_time():
             break
-        evaluate(ctx, ec[i:i + 200])
-    n = ctx.n(3000, 100000)
-    batch = 1500
-    done = 0
-    while done < n and not ctx.out_of_time():
-        k = min(batch, n - done)
-        evaluate(ctx, [gen_case(ctx.rng) for _ in range(k)])
-        done += k
-    h = ctx.histogram
-    if ctx.evaluations:
-        if ctx.distinct_nontrivial < ctx.evaluations * 0.3:
-            raise common.InfraError("degenerate distribution: %d non-trivial of %d" % (ctx.distinct_nontrivial, ctx.evaluations))
-        if h.get("model_declined", 0) > ctx.evaluations * 0.03:
-            raise common.InfraError("the model declined %d of %d cases" % (h.get("model_declined", 0), ctx.evaluations))
-        if done >= 1000:
-            for need in ("feature=else_if", "feature=else", "feature=empty_branch", "feature=quoted_arg", "feature=legacy",
-                         "feature=cond_depth=2", "types=0", "types=2", "feature=first_and_last_quoted"):
-                if not h.get(need):
-                    raise common.InfraError("degenerate distribution: no case with " + need)
+        if part is None:
+            evaluate(ctx, [gen_case(ctx.rng) for _ in range(1500)])
+            generated += 1500
+        else:
+            evaluate(ctx, part)
+    if not ctx.out_of_time():
+        evaluate_setuptype(ctx, [gen_setuptype_case(ctx.rng) for _ in range(400)])
+        for need in ("setuptype_via=setup", "setuptype_via=cmd", "setuptype_via=init_list", "setuptype=EupsException",
+                     "setuptype_cli=cmd", "setuptype_cli=setup",
+                     "setuptype=2 types, exact", "setuptype_claimed"):
+            if not ctx.histogram.get(need):
+                raise common.InfraError("degenerate distribution: no case with " + need)
+    check_distribution(ctx, generated)
+    if not ctx.n(0, 1):
+        return
+    # the enlarged budget
+    ec2 = enum_cond_cases(2, from_level=2)
+    ea2 = enum_arg_cases(7, min_len=6) + enum_opt_cases(5, min_len=5)
+    ctx.hist("enumerated_cond_batches", len(ec2))
+    ctx.hist("enumerated_arg_tables", len(ea2))
+
+    def chunks(xs, k):
+        for i in range(0, len(xs), k):
+            yield xs[i:i + k]
+
+    def stream(n, k):
+        done = 0
+        while done < n:
+            yield [gen_case(ctx.rng) for _ in range(min(k, n - done))]
+            done += k
+    def st_stream(n, k):
+        done = 0
+        while done < n:
+            yield [gen_setuptype_case(ctx.rng) for _ in range(min(k, n - done))]
+            done += k
+    classes = [chunks(ec2, 100), chunks(ea2, 200), stream(57000, 1500), st_stream(3000, 400)]
+    while classes and not ctx.out_of_time():
+        for it in list(classes):
+            if ctx.out_of_time():
+                break
+            batch = next(it, None)
+            if batch is None:
+                classes.remove(it)
+                continue
+            if batch and batch[0]["kind"] == "setuptype":
+                evaluate_setuptype(ctx, batch)
+                continue
+            evaluate(ctx, batch)
+            if batch and batch[0]["kind"] not in ("conds", "args_enum", "opts_enum"):
+                generated += len(batch)
+    check_distribution(ctx, generated)
 
 
 def replay(ctx, rp):
     c = rp["input"]
+    if c.get("kind") == "setuptype":
+        return replay_setuptype(ctx, c)
     r = common.in_child(run_impl_chunk, [c])
     io_ = r[1][0] if r[0] == "ok" else {"child": list(r)}
     mo = model_out(c, ctx.lean.ask_many(model_requests(c)))
     fails = []
     if r[0] == "ok":
         fails = [{"clause": cl, "class": k, "env": c["envs"][i], "detail": d} for cl, k, i, d in oracle(c, io_)]
+    return {"input": c, "impl_output": io_, "model_output": mo, "agree": io_ == mo, "fails": fails}
+
+
+def replay_setuptype(ctx, c):
+    c = dict(c)
+    for k in ("expect_types", "expect_actions", "expect_deptypes"):
+        c.setdefault(k, None)
+    r = common.in_child(run_impl_setuptype_chunk, [c])
+    io_ = r[1][0] if r[0] == "ok" else {"child": list(r)}
+    valid = VALID_DEFAULT if c["valid"] is None else c["valid"].split()
+    a = ctx.lean.ask_many([{"m": "c11", "op": "setuptype", "arg": c["arg"], "exact": c["exact"] is True, "valid": valid,
+                            "via": "cmd" if c["via"] == "cmd" else "init"}])[0]
+    mo = {"types": {"types": a["types"], "exact": a["exact"]} if a.get("out") == "ok" else a.get("err"), "actions": None, "deptypes": None}
+    if isinstance(mo["types"], dict):
+        fe = c["follow"] if c["follow"] is not None else mo["types"]["exact"]
+        b = ctx.lean.ask_many([{"m": "c11", "op": "table", "text": c["text"], "flavor": c["flavor"], "types": mo["types"]["types"], "pdir": PDIR},
+                               {"m": "c11", "op": "deptypes", "types": mo["types"]["types"], "followExact": bool(fe)}])
+        mo["actions"] = b[0]["actions"] if b[0].get("out") == "ok" else {"err": b[0].get("err", "fuel")}
+        mo["deptypes"] = b[1]["types"]
+    mo["cli"] = mo["types"] if io_.get("cli") is not None else None
+    fails = []
+    if c["expect_types"] is not None and r[0] == "ok":
+        if io_["types"] != c["expect_types"]:
+            fails.append({"clause": "setup_type", "detail": "the option names %s, Eups holds %s" % (json.dumps(c["expect_types"]), json.dumps(io_["types"]))})
+        elif io_.get("cli") is not None and io_["cli"] != c["expect_types"]:
+            fails.append({"clause": "setup_type_cli", "detail": "the Eups instance of the command holds %s" % json.dumps(io_["cli"])})
+        elif c["expect_actions"] is not None and io_["actions"] != c["expect_actions"]:
+            fails.append({"clause": "blocks_via_setup_type", "detail": "eups derives %s" % json.dumps(io_["actions"])})
+        elif c["expect_deptypes"] is not None and io_["deptypes"] != c["expect_deptypes"] and not isinstance(io_["actions"], dict):
+            fails.append({"clause": "dependencies_types", "detail": "Table.dependencies asked for %s" % json.dumps(io_["deptypes"])})
     return {"input": c, "impl_output": io_, "model_output": mo, "agree": io_ == mo, "fails": fails}
